@@ -668,6 +668,18 @@ void rt_oracles_end(const char *stats_path)
 			rt_fail("C14", "LP %u was initialised by thread %d of rank %d but finalised by thread %d of rank %d", i, r->init_rid, r->init_rank,
 			    r->fini_rid, r->fini_rank);
 	}
+	if(getenv("RSV_DUMP_TRACE") && !RT.cfg.serial) { /* debugging aid */
+		FILE *f = fopen(getenv("RSV_DUMP_TRACE"), "w");
+		size_t n = rsv_trace_n();
+		for(size_t i = 0; f && i < n; i++) {
+			const struct rsv_rec *r = &rsv_trace[i];
+			fprintf(f, "%zu k=%u thr=%d rid=%d p=%p a=%llu b=%llu t=%g | dest=%llu mt=%g type=%u size=%u flags=%x tag=%u\n", i, r->kind, r->thr,
+			    r->rid, r->p, (unsigned long long)r->a, (unsigned long long)r->b, r->t, (unsigned long long)r->m_dest, r->m_t, r->m_type,
+			    r->m_size, r->m_flags, r->tag);
+		}
+		if(f)
+			fclose(f);
+	}
 	if(RT.cfg.serial) {
 		check_serial();
 	} else {
